@@ -345,6 +345,78 @@ func c03SharedRace(driver string, bound int) vh.Unit {
 	}}
 }
 
+// the cut-off reaches a host on the connection it is registered on *now*: hosts that moved to a new
+// connection (in either order of "new one registers" / "old one closes") still get exactly one
+// vipnode_disconnect, on the live connection
+func c03FanoutAfterReconnect(driver string) vh.Unit {
+	name := "fanout-after-reconnect/" + driver
+	return vh.Unit{Name: name, Run: func(u *vh.U) {
+		for _, order := range []string{"none", "close-then-register", "register-then-close", "register-twice-then-close-first"} {
+			for _, which := range []int{0, 1} { // which of the two hosts moves
+				pw, ids := c03Setup(driver, "500", "credit", 505, 2)
+				C, hosts := ids[0], ids[2:]
+				mover := hosts[which]
+				live := map[string]string{hosts[0].Name: hosts[0].Name, hosts[1].Name: hosts[1].Name} // host -> live connection name
+				oldSvc := pw.Host(mover.Name).Service()
+				reg := func(conn string) {
+					if _, err := pw.Connect(mover, vh.ConnectOpts{Host: true, Service: pw.Host(conn).Service()}); err != nil {
+						u.Violate("fanout/setup-failed", err.Error(), nil)
+					}
+					live[mover.Name] = conn
+				}
+				switch order {
+				case "close-then-register":
+					pw.Pool.CloseRemote(oldSvc)
+					reg(mover.Name + "-new")
+				case "register-then-close":
+					reg(mover.Name + "-new")
+					pw.Pool.CloseRemote(oldSvc)
+				case "register-twice-then-close-first":
+					reg(mover.Name + "-new")
+					reg(mover.Name + "-newer")
+					pw.Pool.CloseRemote(oldSvc)
+					pw.Pool.CloseRemote(pw.Host(mover.Name + "-new").Service())
+				}
+				hostIDs := []string{hosts[0].NodeID, hosts[1].NodeID}
+				pw.Update(C, hostIDs, 1)
+				vsched.Advance(5) // 2 peers x 5 ns at 1/ns: 505 -> 495 < 500
+				for _, h := range hosts {
+					pw.UpdateCtx(vh.CtxWith(pw.Host(live[h.Name]).Service()), h, nil, 2)
+				}
+				_, err := pw.Update(C, hostIDs, 2)
+				u.R.Evaluations++
+				u.R.States++
+				u.R.Transitions++
+				u.R.Traces++
+				u.Observe(order + fmt.Sprint(which))
+				desc := fmt.Sprintf("host %d moved to a new connection (%s); client billed from 505 to 495 with minimum 500", which, order)
+				if _, low := vh.AsLowBalance(err); !low {
+					u.Violate("fanout/not-cut-off-below-minimum", fmt.Sprintf("%s: update returned %v", desc, err), nil)
+					continue
+				}
+				for _, h := range hosts {
+					for _, conn := range []string{h.Name, h.Name + "-new", h.Name + "-newer"} {
+						n := 0
+						for _, c := range pw.Host(conn).Calls {
+							if c.Method == "vipnode_disconnect" && c.Arg == C.NodeID {
+								n++
+							}
+						}
+						want := 0
+						if conn == live[h.Name] {
+							want = 1
+						}
+						if n != want {
+							u.Violate("keepalive/disconnect-fanout", fmt.Sprintf("%s: connection %q of host %s received %d vipnode_disconnect(client), expected %d (live connection: %q)", desc, conn, h.Name, n, want, live[h.Name]), nil)
+						}
+					}
+				}
+			}
+		}
+		u.Sample("two hosts, one of which re-registered on a new connection before/after its old one closed; client cut off")
+	}}
+}
+
 // histories that walk a balance across the threshold in both directions.
 func c03Walk(driver string, depth int) vh.Unit {
 	name := fmt.Sprintf("walk/%s/d%d", driver, depth)
@@ -442,7 +514,7 @@ func init() {
 		Units: func(tier string) []vh.Unit {
 			var us []vh.Unit
 			for _, d := range vh.Drivers {
-				us = append(us, c03Connect(d), c03Update(d))
+				us = append(us, c03Connect(d), c03Update(d), c03FanoutAfterReconnect(d))
 				depth := 4
 				if tier == "thorough" {
 					depth = 8
